@@ -3,6 +3,7 @@
   Only property theorems and non-vacuity examples live here; helper lemmas go to Lemmas/Calendar.lean.
 -/
 import PjVerif.Lemmas.Calendar
+import PjVerif.Lemmas.CalendarSrc
 namespace Pj
 
 /-- leaf constructors, scalar promotion and `/ 0` reject exactly the invalid definitions, with
@@ -58,5 +59,27 @@ example :
     let e : CExpr := .op .sub (.op .add (.weeklyList none none [0,1,2,3,4] 8) (.num 2)) (.fixed 3 (some 10) none)
     e.wellShaped = true ∧ e.invalid = false ∧ e.den 11 = some (some 7) ∧ e.den 9 = some (some 2) := by
   decide +kernel
+
+/-! ### the tie to the current source, by translation
+
+`tools/extract_calendar.py` translates, on every run, the bodies of `get_available_units` of the eight calendar classes,
+of `Resource.get_available_units` and of `IResource.get_nearest_availability_date` (calendar.py, resource.py) into terms
+of the small embedded language `PyLite` (Extracted/CalendarSrc.lean); `Model/PyLite.lean` gives them meaning.  The three
+theorems below say that running the translated source on the fields of a constructed calendar object is the model the
+theorems above are about - so an edit of those methods that changes their meaning breaks these proofs. -/
+
+/-- interpreting the translated `get_available_units` methods on a calendar object = the model's `Cal.eval` -/
+theorem C17_source_eval (c : Cal) (t : Time) : CalSrc.interp c t = c.eval t :=
+  CalSrc.interp_eq_eval c t
+
+/-- `Resource.get_available_units` as translated = the model's capacity function (None becomes 0) -/
+theorem C17_source_resource (c : Cal) (t : Time) : CalSrc.interpResource c t = (capR c t).map some :=
+  CalSrc.interpResource_eq_capR c t
+
+/-- the translated `while` loop of `get_nearest_availability_date` = the model's search (`fuel` bounds the interpreter's
+    loop and only needs to exceed the horizon) -/
+theorem C17_source_search (fuel : Nat) (c : Cal) (dir : Int) (n : Nat) (t : Time) (hf : n < fuel) :
+    CalSrc.interpSearch fuel c dir n t = search c dir n t :=
+  CalSrc.interpSearch_eq_search fuel c dir n t hf
 
 end Pj
